@@ -384,11 +384,12 @@ func analyze(cl *cluster) *analysis {
 		}
 	}
 
+	// (4) block limits (misconf_test.go)
+	checkLimits(cl, a, blocks)
+
 	// (3) inclusion: a block proposed at view 0 by primary p omits a
 	// transaction that was in p's pool since before p accepted the previous
-	// block, is still valid, and fits
-	cfg := ref.GetConfig()
-	maxTx := int(cfg.MaxTransactionsPerBlock)
+	// block, is still valid, and fits (under p's own limits)
 	for h := uint32(2); h <= a.maxH; h++ {
 		b := blocks[h]
 		if b == nil {
@@ -425,6 +426,8 @@ func analyze(cl *cluster) *analysis {
 			continue
 		}
 		a.obs["view0_blocks_checked_for_inclusion"]++
+		cfg := cl.nodes[pn].bc.GetConfig()
+		maxTx := int(cfg.MaxTransactionsPerBlock)
 		for _, th := range rec.txOrder {
 			tr := rec.txs[th]
 			tr.mu.Lock()
